@@ -3,6 +3,7 @@ package nexus
 import (
 	"context"
 	"fmt"
+	"strings"
 	"sync"
 )
 
@@ -236,13 +237,30 @@ type VLANStats struct {
 }
 
 // LoadFromStore loads existing allocations from the store.
+//
+// A stored pair that is already recorded for a different NTE (two store
+// records with one pair, or a pair handed out since startup) is not loaded: the
+// first holder keeps it and the conflicts are reported in the returned error.
+// An NTE that already holds a different pair gives that pair up first, so no
+// pair stays marked as used without an owner.
 func (v *VLANAllocator) LoadFromStore(ctx context.Context, ntes []*NTE) error {
 	v.mu.Lock()
 	defer v.mu.Unlock()
 
+	var conflicts []string
 	for _, nte := range ntes {
 		if nte.STag == 0 || nte.CTag == 0 {
 			continue
+		}
+
+		if owner, used := v.sTagUsage[nte.STag][nte.CTag]; used && owner != nte.ID {
+			conflicts = append(conflicts, fmt.Sprintf("%s: (%d,%d) already allocated to %s", nte.ID, nte.STag, nte.CTag, owner))
+			continue
+		}
+
+		// Drop any other pair this NTE holds (stale record, re-load)
+		if prev, ok := v.allocations[nte.ID]; ok && (prev.STag != nte.STag || prev.CTag != nte.CTag) {
+			v.releaseUnlocked(nte.ID)
 		}
 
 		alloc := &VLANAllocation{
@@ -258,6 +276,9 @@ func (v *VLANAllocator) LoadFromStore(ctx context.Context, ntes []*NTE) error {
 		v.sTagUsage[nte.STag][nte.CTag] = nte.ID
 	}
 
+	if len(conflicts) > 0 {
+		return fmt.Errorf("%d conflicting VLAN allocations not loaded: %s", len(conflicts), strings.Join(conflicts, "; "))
+	}
 	return nil
 }
 
